@@ -620,7 +620,8 @@ impl MleJaccard {
         let jac = dequal as f64 / self.m as f64;
         //
         let solver = GoldenSectionSearch::new(b_inf, b_sup).unwrap();
-        let init_param = jac;
+        // the raw collision fraction can exceed the upper bound of the search interval, the solver refuses such a start
+        let init_param = jac.min(b_sup);
         //
         let cost = MleCost::new(dplus as f64, dless as f64, dequal as f64, u, v, self.b);
 
